@@ -204,6 +204,8 @@ type world struct {
 type pipeInfo struct {
 	typ, sink string
 	rejects   bool
+	fmtKind   kind // the pipeline's formatter
+	enc       bool // an encrypt.Filter ahead of the formatter
 }
 
 func newWorld(dir string) *world {
@@ -335,6 +337,7 @@ func (w *world) addPipeline(id string, ps pipeSpec) {
 		}
 	}
 	encAhead, seenFmt, rejects := false, false, false
+	var fmtKind kind
 	for i, k := range ps.Kinds {
 		nid, n := w.node(kind(k), ps.Insts[i], fmtFor)
 		ids = append(ids, nid)
@@ -345,12 +348,13 @@ func (w *world) addPipeline(id string, ps pipeSpec) {
 			}
 		case kJSON, kJSONFF, kJSONFFReject, kCEJ, kCEJLate, kCET:
 			seenFmt = true
+			fmtKind = kind(k)
 			if kind(k) == kJSONFFReject {
 				rejects = true
 			}
 		case kFile, kFileSame, kWriter, kFileRotTS, kFileRotTSKeep, kFileRotStamped:
 			w.sinkFeeds[string(nid)] = append(w.sinkFeeds[string(nid)], encAhead)
-			w.pipes = append(w.pipes, pipeInfo{typ: ps.Type, sink: string(nid), rejects: rejects})
+			w.pipes = append(w.pipes, pipeInfo{typ: ps.Type, sink: string(nid), rejects: rejects, fmtKind: fmtKind, enc: encAhead})
 			if f, ok := n.(*el.FileSink); ok {
 				w.fileSinks[string(nid)] = f
 			}
@@ -387,7 +391,8 @@ func (w *world) payload(r *hc.Rand, i int, gate bool) interface{} {
 
 // every protected field of every event carries a canary that names the event
 func plainP(i int) *P {
-	return &P{Pub: fmt.Sprintf("pub-%d", i), Sec: fmt.Sprintf("CANARY-SEC-%d", i), Sens: fmt.Sprintf("CANARY-SENS-%d", i), Hm: fmt.Sprintf("CANARY-HM-%d", i), N: i}
+	// the public field carries what encoding/json treats specially: the HTML characters, U+2028 / U+2029, invalid UTF-8, a quote
+	return &P{Pub: fmt.Sprintf("pub-%d <a href=\"x\">R&D</a> \u2028\u2029 \xff\xfe end", i), Sec: fmt.Sprintf("CANARY-SEC-%d", i), Sens: fmt.Sprintf("CANARY-SENS-%d", i), Hm: fmt.Sprintf("CANARY-HM-%d", i), N: i}
 }
 
 type hangRec struct {
@@ -885,6 +890,64 @@ func runScenario(sc scenario, seed uint64, dir string) result {
 				res.Integrity = append(res.Integrity, fmt.Sprintf("%s (pipeline of type %s, %d pipelines share the event): of %d acknowledged events %d are missing from this pipeline's sink and %d are in it more than once (e.g. event %d): a pipeline's outcome depends on what the other pipelines do with the shared event",
 					p.sink, p.typ, pipesOfType(w.pipes, p.typ), len(w.ackedByType[p.typ]), missing, dup, ex))
 			}
+		}
+	}
+	if sc.PerPipeline {
+		// each sink holds what ITS pipeline's formatter renders.  The stock JSON formatters (JSONFormatter, JSONFormatterFilter) render
+		// one event identically, so for one Send the lines in the sinks of all their pipelines (no encrypt.Filter ahead) are the
+		// same bytes, and a JSONFormatter pipeline's line carries the public field the way encoding/json.Marshal renders it
+		lines := map[string]map[int][]byte{}
+		for _, p := range w.pipes {
+			if p.rejects || p.enc || !(p.fmtKind == kJSON || p.fmtKind == kJSONFF) {
+				continue
+			}
+			m := map[int][]byte{}
+			for _, ln := range bytes.Split(outputs[p.sink], []byte("\n")) {
+				var doc struct {
+					Payload *struct{ N int } `json:"payload"`
+				}
+				if len(ln) > 0 && json.Unmarshal(ln, &doc) == nil && doc.Payload != nil {
+					m[doc.Payload.N] = ln
+				}
+			}
+			lines[p.sink] = m
+		}
+		differ, wrong, ex := 0, 0, ""
+		for _, p := range w.pipes {
+			mine, ok := lines[p.sink]
+			if !ok {
+				continue
+			}
+			for idx := range w.ackedByType[p.typ] {
+				ln, have := mine[idx]
+				if !have {
+					continue
+				}
+				if p.fmtKind == kJSON {
+					want, _ := json.Marshal(plainP(idx).Pub)
+					if !bytes.Contains(ln, want) {
+						wrong++
+						if ex == "" {
+							ex = fmt.Sprintf("event %d in %s (JSONFormatter pipeline of type %s): %s", idx, p.sink, p.typ, ln)
+						}
+					}
+				}
+				for _, q := range w.pipes {
+					other, ok := lines[q.sink]
+					if !ok || q.typ != p.typ || q.sink <= p.sink {
+						continue
+					}
+					if ol, have := other[idx]; have && !bytes.Equal(ol, ln) {
+						differ++
+						if ex == "" {
+							ex = fmt.Sprintf("event %d of type %s: %s has %s but %s has %s", idx, p.typ, p.sink, ln, q.sink, ol)
+						}
+					}
+				}
+			}
+		}
+		if differ+wrong > 0 {
+			res.Integrity = append(res.Integrity, fmt.Sprintf("formatting of the shared event: %d lines of JSONFormatter pipelines are not what JSONFormatter renders, %d pairs of sinks of stock JSON pipelines hold different bytes for one Send (e.g. %s)", wrong, differ, ex))
 		}
 	}
 	if sc.LateSigner {
